@@ -569,7 +569,8 @@ class AdjointLinearOperator(LinearOperator):
 
     def _mv(self, x: torch.Tensor) -> torch.Tensor:
         if not self.obj.is_rmv_implemented:
-            raise RuntimeError("The ._rmv of must be implemented to call .H.mv()")
+            # use the public rmv, which falls back to the adjoint trick
+            return self.obj.rmv(x)
         return self.obj._rmv(x)
 
     def _rmv(self, x: torch.Tensor) -> torch.Tensor:
